@@ -30,12 +30,19 @@ def r1_job(ctx, jm):
     ind = jm.ind
     succ = jm.success_paths()
     bad = None
+    unknown = None
     for p, last in succ:
         sync = [i for i, e in enumerate(p.events) if i > last and jm.is_sync(e)]
         costs = [i for i, e in enumerate(p.events) if i >= last and jm.is_costs_assign(e)]
         calc = [i for i, e in enumerate(p.events) if i > last and jm.is_calc(e)]
         evald = [i for i, e in enumerate(p.events) if i > last and jm.state_written(e) == "EVALUATED"]
         if not sync:
+            switched = [e for e in p.events if e.kind == "guard" and not e.val and access_path(e.node) in getattr(jm, "extra_params", ())]
+            if switched:
+                # the caller switched the store write off through an optional parameter: whether the design is persisted
+                # is then decided by the callers (C07 looks at the parallel dispatcher), not by this function
+                unknown = unknown or (p, "the store write is skipped when the optional parameter `%s` is false: persistence is left to the caller" % access_path(switched[0].node))
+                continue
             bad = bad or (p, None, "a successful evaluation returns without writing the design to the store")
             continue
         s0 = sync[0]
@@ -50,6 +57,8 @@ def r1_job(ctx, jm):
                         bad = bad or (p, e.node, "%s is modified after the design was stored and before the function returns" % tp)
     if bad:
         ctx.violated("R1", C, jm.where(bad[1]), bad[2] + " (path [%s])" % bad[0].describe(6), key="store-after-final-writes")
+    elif unknown:
+        ctx.inconclusive("R1", C, jm.where(), unknown[1], key="store-after-final-writes")
     elif not succ:
         ctx.inconclusive("R1", C, jm.where(), "no success path", key="store-after-final-writes")
     else:
